@@ -191,6 +191,15 @@ def build_request(case, stack, app_options=None):
         del scope['client']
     if case.get('asgi_no_server'):
         scope['server'] = None
+    if ws:
+        scope['subprotocols'] = ['chat', 'v2.chat']
+    # The ASGI spec only promises *iterables* for client, server, headers (of 2-item iterables) and subprotocols:
+    # hand them over as forward-only iterators (every Request object gets a freshly built scope then).
+    for f in case.get('asgi_oneshot', ()):
+        if f == 'headers':
+            scope['headers'] = iter([iter(p) for p in scope['headers']])
+        elif scope.get(f) is not None:
+            scope[f] = iter(scope[f])
     return scope
 
 
@@ -338,8 +347,14 @@ def evaluate(case, stacks=STACKS):
         r.shuffle(o3)
         try:
             built = build_request(case, stack)
-            reqA = request_from(built, stack)
-            reqB = request_from(built, stack)
+            if stack == 'asgi' and case.get('asgi_oneshot'):
+                def fresh(case=case, stack=stack):      # a forward-only scope serves one Request object only
+                    return request_from(build_request(case, stack), stack)
+            else:
+                def fresh(built=built, stack=stack):
+                    return request_from(built, stack)
+            reqA = fresh()
+            reqB = fresh()
         except Exception as ex:  # noqa
             findings.append({'kind': 'constructor-raised', 'stack': stack, 'accessor': '__init__',
                              'got': ['exc', type(ex).__name__, str(ex)[:160], innermost(ex)], 'known': None})
@@ -350,6 +365,9 @@ def evaluate(case, stacks=STACKS):
         s3 = s1 if light else snapshot(reqB, table, o3)
         snaps[stack] = s1
         cnt('stack.' + stack)
+        if stack == 'asgi':
+            for f in case.get('asgi_oneshot', ()):
+                cnt('oneshot.' + f)
         for k, fn in table:
             got, exp = s1[k], E[k]
             fam = family(k)
@@ -386,18 +404,18 @@ def evaluate(case, stacks=STACKS):
             # parsing raises, every later read on that object returns the partial list (and ASGI remote_addr
             # indexes into it).  Attribute findings on these two accessors to that mechanism only when a lone
             # read of access_route on a fresh object raises.
-            root = read(request_from(built, stack), tab['access_route'])
+            root = read(fresh(), tab['access_route'])
             if root[0] in ('exc', 'http'):
                 for f in pending:
                     f['known'] = K_ROUTE_CACHE
                     f['root'] = list(root)
         for k in ([] if light else MEMOISED):
-            alone = read(request_from(built, stack), tab[k])
+            alone = read(fresh(), tab[k])
             cnt('mon.fresh_alone')
             if not same(alone, s1[k]) and judge(E[k], s1[k]) is None:
                 known = None
                 if k in ('access_route', 'remote_addr') and \
-                        read(request_from(built, stack), tab['access_route'])[0] in ('exc', 'http'):
+                        read(fresh(), tab['access_route'])[0] in ('exc', 'http'):
                     known = K_ROUTE_CACHE
                 findings.append({'kind': 'memoised-differs-from-fresh', 'stack': stack, 'accessor': k,
                                  'got': list(s1[k]), 'fresh': list(alone), 'known': known})
@@ -900,6 +918,8 @@ def random_case(rng, p_mut=0.35):
         c['asgi_ws'] = True
     if rng.random() < 0.3:
         c['tz'] = rng.choice(TZS)
+    if rng.random() < 0.2:
+        c['asgi_oneshot'] = oneshot_subset(rng.randrange(15))
     for name, g in GENS.items():
         if rng.random() < P_PRESENT.get(name, 0.25):
             v = g(rng)
@@ -1043,6 +1063,7 @@ def exhaustive_values(tier):
         yield ('Accept',), None, {'lines': [a, b]}
     # requests without a Host header (HTTP/1.0 clients): every kind of server address x port x scheme, alone and with
     # a Forwarded header that falls back on the own netloc
+    n1 = 0
     for sname in ['falconframework.org', 'srv', '10.0.0.5', '::1', '2001:db8::8', '::ffff:192.0.2.1']:
         for br in ((False, True) if ':' in sname else (False,)):
             for sport in (80, 443, 8000):
@@ -1051,9 +1072,20 @@ def exhaustive_values(tier):
                         ex = {'scheme': scheme, 'server': [sname, sport], 'wsgi_server_bracketed': br, 'asgi_ws': ws}
                         yield (), '', ex
                         yield ('Forwarded',), 'for=192.0.2.60;proto=https', ex
+                        n1 += 1
+                        yield ('X-Forwarded-For',), '192.0.2.60', dict(ex, asgi_oneshot=oneshot_subset(n1))
     if deep:
         for a, b, c in itertools.product(ar[:11], repeat=3):
             yield ('Accept',), ','.join((a, b, c)), None
+
+
+ONESHOT_FIELDS = ['client', 'server', 'headers', 'subprotocols']
+
+
+def oneshot_subset(i):
+    """the i-th non-empty subset of the scope fields the ASGI spec calls iterables (15 of them, cycling)."""
+    m = i % 15 + 1
+    return [f for b, f in enumerate(ONESHOT_FIELDS) if m >> b & 1]
 
 
 def decision_table(deep=True):
@@ -1154,7 +1186,7 @@ class Runner:
             findings += f2
         rec.case(repr((case['scheme'], case['server'], case['client'], case['root_path'], case['path'], case['query'],
                        case['headers'], case.get('asgi_no_server'), case.get('asgi_ws'), case.get('tz'),
-                       case.get('wsgi_server_bracketed'))) if nontrivial(case) else None)
+                       case.get('wsgi_server_bracketed'), case.get('asgi_oneshot'))) if nontrivial(case) else None)
         self.n += 1
         if findings:
             self.report(case, findings)
@@ -1231,6 +1263,7 @@ FLOORS_COMMON = {
     'mon.roundtrip.date': 100, 'mon.roundtrip.etag': 60,
     'mon.roundtrip.tz_other.naive': 40, 'mon.roundtrip.tz_other.aware': 40, 'mon.roundtrip.tz_utc.naive': 8,
     'tz.other.cases': 300,
+    'oneshot.client': 60, 'oneshot.server': 60, 'oneshot.headers': 60, 'oneshot.subprotocols': 60,
     'raised.4xx.range': 20, 'raised.4xx.date': 20, 'raised.4xx.cl': 5,
 }
 BRANCH_FLOORS = [
@@ -1279,7 +1312,8 @@ def run(rec):
         'empty list elements and second=60 are left open (value or 4xx)',
         'the e2e apps use a plain error serializer: negotiating the error body against Accept is error rendering '
         '(C04/C11), only the status code is monitored here',
-        'ASGI scope shapes other than header values (client=None, empty client address) are outside the quantifier',
+        'ASGI scope shapes other than header values (client=None, empty client address) are outside the quantifier; '
+        'client/server/headers/subprotocols may arrive as forward-only iterators (the spec promises iterables only)',
     ]
     R = Runner(rec)
     deep = rec.tier != 'quick'
@@ -1315,6 +1349,8 @@ def run(rec):
         c['query'] = 'a=1' if idx % 3 == 0 else ''
         if idx % 5 == 0:
             c['asgi_ws'] = True
+        if (idx // rec.nshards) % 3 == 0:
+            c['asgi_oneshot'] = oneshot_subset(idx // rec.nshards // 3)
         R.run_case(finish_case(c, random.Random(idx)), do_e2e=(idx // rec.nshards) % 23 == 0)
     rec.exhaustive = True
     if rec.shard == 0:
